@@ -99,11 +99,11 @@ func runGrowth(thorough bool, res chan<- growthResult) {
 	fams := growthFamilies()
 	sizes := []int{1 << 10, 2 << 10, 4 << 10, 8 << 10, 16 << 10, 32 << 10, 64 << 10}
 	budget := 90 * time.Second
-	par := 5
+	par := 8
 	if thorough {
 		sizes = append(sizes, 128<<10, 256<<10, 512<<10)
 		budget = 600 * time.Second
-		par = 6
+		par = 8
 	}
 	const probeN = 512 << 10
 	type task struct {
@@ -112,7 +112,15 @@ func runGrowth(thorough bool, res chan<- growthResult) {
 	}
 	var tasks []task
 	for _, g := range fams {
-		tasks = append(tasks, task{g, "cmdsA"}, task{g, "unsol"})
+		tasks = append(tasks, task{g, "cmdsA"})
+		// without a pending command only these responses do anything beyond being parsed and dropped
+		up := strings.ToUpper(string(g.gen(1)))
+		for _, kw := range []string{"FETCH", "EXPUNGE", "EXISTS", "FLAGS", "METADATA"} {
+			if strings.Contains(up, kw) {
+				tasks = append(tasks, task{g, "unsol"})
+				break
+			}
+		}
 	}
 	var mu sync.Mutex
 	vk.ParallelW(par, len(tasks), func(i int) {
@@ -125,7 +133,7 @@ func runGrowth(thorough bool, res chan<- growthResult) {
 				return
 			}
 			violated = key
-			addCandidate(candidate{Key: key, Input: g.gen(min(n, 64)), Variant: variant, What: what, Family: "growth", GrowthF: name, GrowthN: n})
+			addCandidate(candidate{Key: key, Input: g.gen(min(n, 64)), Variant: variant, What: what, Family: "growth", GrowthF: name, GrowthN: n, Rank: 1})
 		}
 		deathReport := func(d *workerOut, pt point) {
 			kind, fn, msg := classifyDeath(d.stderr, d.timedOut)
